@@ -39,7 +39,7 @@ REGISTRY = {
     "C08": {
         "engine": "engine_deser",
         "theorems": [(A + "NoCopyThm", "Api.C08_no_copy"), (A + "NoCopyThm", "Api.noCopy_independent"),
-                     (A + "TablesThm", "Api.Tables.C08_check_only_table")],
+                     (A + "TablesThm", "Api.Tables.C08_check_only_table"), (A + "TablesThm", "Api.Tables.C08_fast_path_conditions")],
         "partial": "independence of no_copy proved on Ty.scope (TypedDict and failing key types outside); constructor override, precomputed method, "
                    "check_type and pass-through are decided by the correspondence / relational checks on the real code",
         "assumptions": MODEL_ASSUMPTIONS,
@@ -50,6 +50,7 @@ REGISTRY = {
                      (A + "UnionThm", "Api.C13_byType_eq_sequential"), (A + "UnionThm", "Api.C13_optional"),
                      (A + "UnionThm", "Api.compile_byTypeSound"), (A + "UnionThm", "Api.C13_byType_unsound_float"),
                      (A + "UnionSelThm", "Api.union_accepts_at"), (A + "UnionSelThm", "Api.C01_accept_union"),
+                     (A + "UnionSrcThm", "Api.unionSel_matches_source"), (A + "UnionSrcThm", "Api.unionSelC_matches_source"),
                      (A + "AcceptUnionThm", "Api.acceptsU"), (A + "AcceptUnionThm", "Api.C01_acceptU")],
         "partial": "deserialization side: whichever of the three union methods is compiled, at any depth, the union accepts iff some alternative "
                    "conforms (acceptsU), and all three = first accepting alternative under the stated side conditions; "
